@@ -14,6 +14,10 @@ CLAIMS = {
   text="Deductive proof, per method: for each of the 12 public instance methods a contract variant with precondition 'this builder's function has finished' is verified: the only outcomes are RuntimeError (or TypeError for an ill-typed argument checked first), with empty effect trace, no callback and no change to any pre-existing object (frame obligations); _assert_not_finished and _append_suboperation are verified against exact contracts (append happens iff not finished, under the owner's lock: lockset obligation).",
   note="Sequential semantics: the racing clause (straggler thread between its check and its append) is not decided. Z2 (is_finished set on every exit of the code that ran the callback) is verified only for build_versioned's finally so far.",
   ref="DESIGN.md 5 C17"),
+ 'C11': dict(
+  text="Deductive proof of ownership (region) obligations at every value-carrying API edge, on all paths: values returned by build_file_with_comparison, subbuild and _exec_simple_operation (all query methods) are fresh copies (provenance flag of the interpreter: created by copy.deepcopy/JsonUtil.sanitize after entry, or provably an immutable atom); every JSON argument handed to a user function in _rebuild_file and _subbuild is a fresh copy (obligation at the callback call site); JsonUtil.sanitize's result shares no mutable structure with its argument; arguments stored in records are sanitize results.",
+  note="Assumes copy.deepcopy returns an equal value sharing no mutable structure; container fields are uniquely owned (value semantics); user code reaches records only through the API (no private attribute access).",
+  ref="DESIGN.md 5 C11"),
 }
 NA_REASON = {
  'C09': "quantifies over thread schedules between critical sections; pyvc has sequential semantics and contracts cannot express or explore interleavings (DESIGN.md section 7)",
